@@ -564,7 +564,12 @@ pub fn print(t: &J, out: &mut String) -> R<()> {
         "numx" => out.push_str(t["s"].as_str().ok_or("s")?),
         "bignum" => {
             let d = t["d"].as_array().ok_or("d")?;
-            let txt: String = if d.is_empty() { "0".into() } else { d.iter().map(|x| (b'0' + x.as_i64().unwrap_or(0) as u8) as char).collect() };
+            let mut txt: String = if d.is_empty() { "0".into() } else { d.iter().map(|x| (b'0' + x.as_i64().unwrap_or(0) as u8) as char).collect() };
+            // optional fraction digits: a decimal literal
+            if let Some(fr) = t.get("fr").and_then(|f| f.as_array()) {
+                txt.push('.');
+                txt.extend(fr.iter().map(|x| (b'0' + x.as_i64().unwrap_or(0) as u8) as char));
+            }
             if t["neg"].as_bool().unwrap_or(false) {
                 out.push_str(&format!("(-{txt})"));
             } else {
